@@ -28,11 +28,14 @@ func (a *ackQueue) store(pkt mqttp.IFace, replace bool) bool {
 func (a *ackQueue) release(pkt mqttp.IFace) bool {
 	id, _ := pkt.ID()
 
-	if value, ok := a.messages.Load(id); ok {
+	// the entry goes first: onRelease gives the packet identifier back, and the writer (woken by the
+	// freed quota) may hand that very identifier to the next message and store it here at once - a
+	// Delete after that would take the NEW message out of the unacknowledged set (not persisted at
+	// connection end, its acknowledgement frees nothing)
+	if value, ok := a.messages.LoadAndDelete(id); ok {
 		if orig, k := value.(mqttp.IFace); k && a.onRelease != nil {
 			a.onRelease(orig, pkt)
 		}
-		a.messages.Delete(id)
 
 		return true
 	}
